@@ -9,6 +9,7 @@ real queries, source still usable) + correspondence with the Lean object-heap mo
 (`PyGqlModel/Heap.lean`) up to renaming of identities.
 """
 import ast
+import textwrap
 import copy
 import json
 import re
@@ -19,7 +20,10 @@ from corr import C14_world as W
 PROPERTY = "C14"
 RULE = ("one generated source schema (harness/gen/schema.py + code-built resolvers / python names / type resolvers) "
         "and a random sequence of clone / transform_schema(visibility | camel-case | schema-directive visitor) / "
-        "extend_schema / _replace_types_and_directives / in-place on_schema steps applied to it, each followed by registrations "
+        "extend_schema / _replace_types_and_directives / in-place on_schema steps, each applied to the source or (40%) to the "
+        "RESULT of an earlier step (camel-case then visibility, a hidden field then clone, clone of a clone, extend after a "
+        "transform, a wrapped resolver then any derivation: every derivation must succeed, and a field that is still there must "
+        "carry and execute the resolver REGISTERED for it, under its new name), each followed by registrations "
         "(register_resolver / register_subscription / register_default_resolver, method and decorator forms) on the DERIVED "
         "schema for a type with and a type without registry entries in the source; one evaluation = one step checked; "
         "non-trivial = distinct (step kind, what it hid/added, schema shape) whose result differs from the source")
@@ -29,7 +33,9 @@ ASSUMPTIONS = [
     "wrapper objects (ListType/NonNullType) are immutable values: only the identity of the named type at their base is tracked",
     "rare-but-valid names (single leading underscore, `_`+digits, one letter, case-only differences, keyword-like) are generated in the C14 world builder for ~45% of the sources; every such type references other user types and is referenced from Query",
     "recursive input objects are not generated (defect S1 makes extend_schema recurse forever on them)",
-    "steps rejected by schema validation (SchemaError) produce no schema; their side effects on the heap are still compared",
+    "steps rejected by schema validation (SchemaValidationError / ExtensionError / SDLError) produce no schema; their side effects on the heap are still compared; any other exception, a plain SchemaError included, is a failure of the derivation",
+    "about half of the object types of a source get their resolvers through the schema's registries; 12% of the sources hold one or two type objects that are instances of an application-defined subclass of ObjectType / InterfaceType / InputObjectType",
+    "resolver identity is by function object (every resolver of the harness is a distinct function with a stable id); the registry model compares these ids",
 ]
 TRUSTED = [
     "Cfg extraction: which keyword arguments the _extend_* constructors pass and which clone()/replace variants are present is read from the source with `ast`/regex (Generated/HeapCfg.lean)",
@@ -43,7 +49,8 @@ FROM_AST_PY = REPO / "src/py_gql/sdl/schema_from_ast.py"
 
 CFG_KEYS = ["keepAllTypes", "deepClone", "accumulateBusted", "cloneSchemaDres",
             "extObjDres", "extFieldSub", "extFieldPy", "extIfaceRtype", "extUnionDesc", "extUnionRtype",
-            "extArgPy", "extInputPy", "extKeepAll", "extSchemaDres", "extInputFieldExtended", "cloneRegsDeep"]
+            "extArgPy", "extInputPy", "extKeepAll", "extSchemaDres", "extInputFieldExtended", "cloneRegsDeep",
+            "cloneRegsFiltered", "cloneRegsByValue", "extKeepRegs"]
 
 
 def read_cfg():
@@ -71,8 +78,56 @@ def read_cfg():
         "accumulateBusted": bool(re.search(r"busted_cache\s*=\s*busted_cache\s+or|busted_cache\s*\|=|if new_type != original_type:\s*\n\s*busted_cache = True", replace_src)),
         "cloneSchemaDres": "cloned.default_resolver" in clone_src,
     }
-    # how clone() copies the resolver registries: merge_resolvers (fresh inner dicts) or dict.update of the outer maps
-    if re.search(r"\.merge_resolvers\(\s*self\s*\)", clone_src):
+    # how clone() copies the resolver registries:
+    #   cloned.resolvers.update(self.resolvers)                      outer maps only, inner dicts SHARED        (shallow)
+    #   cloned.merge_resolvers(self)                                 replayed through register_resolver, every entry
+    #   cloned.merge_resolvers(self._applicable_resolvers(cloned))   replayed, only entries naming a field of the clone (d328eb2)
+    #   self._copy_registries_to(cloned)                             entries naming a field of the clone, copied by value
+    def _fn(name):
+        for n in ast.walk(tree):
+            if isinstance(n, ast.FunctionDef) and n.name == name:
+                return ast.get_source_segment(src, n)
+        return None
+
+    def _check_registered():
+        reg = _fn("_registered")
+        if reg is None:
+            raise ValueError("clone(): _registered not found")
+        if not (re.search(r"isinstance\(type_,\s*ObjectType\)", reg) and re.search(r"fieldname in type_\.field_map", reg)
+                and re.search(r"schema\.types\.get\(typename\)", reg)):
+            raise ValueError("_registered: unexpected filter")
+
+    cfg["cloneRegsFiltered"] = False
+    cfg["cloneRegsByValue"] = False
+    if re.search(r"\.merge_resolvers\(\s*self\._applicable_resolvers\(\s*cloned\s*\)\s*\)", clone_src):
+        appl = _fn("_applicable_resolvers")
+        if appl is None:
+            raise ValueError("clone(): _applicable_resolvers not found")
+        if not (re.search(r"=\s*ResolverMap\(\)", appl) and "_registered(self.resolvers, target)" in appl
+                and re.search(r"_registered\(\s*self\.subscriptions,\s*target\s*\)", appl)
+                and "register_resolver(typename, fieldname, resolver)" in appl
+                and "register_subscription(typename, fieldname, resolver)" in appl):
+            raise ValueError("_applicable_resolvers: unexpected shape")
+        _check_registered()
+        cfg["cloneRegsDeep"] = True
+        cfg["cloneRegsFiltered"] = True
+    elif re.search(r"self\._copy_registries_to\(\s*cloned\s*\)", clone_src):
+        helper = _fn("_copy_registries_to")
+        if helper is None:
+            raise ValueError("clone(): _copy_registries_to not found")
+        helper = ast.unparse(ast.parse(textwrap.dedent(helper)))      # (no comments, canonical layout)
+        if not (re.search(r"_registered\(\s*self\.resolvers,\s*target\s*\)", helper)
+                and re.search(r"_registered\(\s*self\.subscriptions,\s*target\s*\)", helper)
+                and re.search(r"target\.resolvers\.setdefault\(typename,\s*\{\}\)\[fieldname\]\s*=\s*resolver", helper)
+                and re.search(r"target\.subscriptions\.setdefault\(typename,\s*\{\}\)\[\s*fieldname\s*\]\s*=\s*resolver", helper)
+                and "register_resolver(" not in helper and "register_subscription(" not in helper):
+            raise ValueError("_copy_registries_to: unexpected shape")
+        _check_registered()
+        cfg["cloneRegsDeep"] = True
+        cfg["cloneRegsFiltered"] = True
+        cfg["cloneRegsByValue"] = True
+        cfg["cloneSchemaDres"] = bool(re.search(r"target\.default_resolver\s*=\s*self\.default_resolver", helper))
+    elif re.search(r"\.merge_resolvers\(\s*self\s*\)", clone_src):
         cfg["cloneRegsDeep"] = True
     elif re.search(r"\.resolvers\.update\(\s*self\.resolvers\s*\)", clone_src):
         cfg["cloneRegsDeep"] = False
@@ -120,6 +175,16 @@ def read_cfg():
     cfg["extKeepAll"] = "if t.name in type_exts" not in esrc
     cfg["extInputFieldExtended"] = bool(re.search(r"_extend_input_field\(\s*self\._build_input_field\(ext_field\)", bsrc))
     cfg["extSchemaDres"] = bool(re.search(r"\.default_resolver\s*=\s*schema\.default_resolver", esrc))
+    # does extend_schema carry the resolvers / subscriptions registries over (by value, like clone)?
+    cfg["extKeepRegs"] = False
+    if re.search(r"schema\._copy_registries_to\(\s*extended\s*\)", esrc):
+        helper = ast.unparse(ast.parse(textwrap.dedent(_fn("_copy_registries_to") or "")))
+        cfg["extKeepRegs"] = bool(cfg["cloneRegsByValue"] or re.search(r"target\.resolvers\.setdefault\(typename,\s*\{\}\)\[fieldname\]\s*=\s*resolver", helper))
+        if not cfg["extKeepRegs"]:
+            raise ValueError("extend_schema: _copy_registries_to has an unexpected shape")
+        cfg["extSchemaDres"] = bool(re.search(r"target\.default_resolver\s*=\s*self\.default_resolver", helper))
+    elif re.search(r"\.merge_resolvers\(|\.resolvers\.update\(|\.resolvers\s*=", esrc):
+        raise ValueError("extend_schema: unexpected way of copying the resolver registries")
     return cfg
 
 
@@ -208,34 +273,43 @@ def gen_ext(rng, schema, n):
             t = {"k": "nonNull", "t": t}
         return t
 
+    # rare-but-valid names in the extension DOCUMENT: blocks on types named `_…` / `on` / `type` / one letter (when the
+    # source has them), and new types / fields / values / directives with a leading underscore
+    rare = rng.random() < 0.4
+    u = "_" if rare else ""
+
+    def pick(pool):
+        special = [x for x in pool if x in W.RARE_TYPE_NAMES]
+        return rng.choice(special) if special and rng.random() < 0.6 else rng.choice(pool)
+
     zed = None
     if rng.random() < 0.7:
-        zed = "Zed%d" % n
+        zed = "%sZed%d" % (u, n)
         ext["new_types"].append({"kind": "object", "name": zed, "fields": [
-            {"name": "z_val", "ty": ty("Int"), "args": []},
-            {"name": "z_ref", "ty": ty(rng.choice(out_pool + [zed])), "args": [{"name": "z_arg", "ty": ty("Int")}] if rng.random() < 0.5 else []}]})
+            {"name": u + "z_val", "ty": ty("Int"), "args": []},
+            {"name": "z_ref", "ty": ty(rng.choice(out_pool + [zed])), "args": [{"name": u + "z_arg", "ty": ty("Int")}] if rng.random() < 0.5 else []}]})
         out_pool = out_pool + [zed]
     if names["object"] and rng.random() < 0.6:
-        o = rng.choice(names["object"])
-        ext["fields"].setdefault(o, []).append({"name": "ext_f%d" % n, "ty": ty(rng.choice(out_pool)), "args": []})
+        o = pick(names["object"])
+        ext["fields"].setdefault(o, []).append({"name": "%sext_f%d" % (u, n), "ty": ty(rng.choice(out_pool)), "args": []})
     if names["interface"] and rng.random() < 0.35:
-        i = rng.choice(names["interface"])
-        f = {"name": "ext_if%d" % n, "ty": ty(rng.choice(W.SCALARS)), "args": []}
+        i = pick(names["interface"])
+        f = {"name": "%sext_if%d" % (u, n), "ty": ty(rng.choice(W.SCALARS)), "args": []}
         ext["fields"].setdefault(i, []).append(f)
         for o in names["object"]:
             if any(x.name == i for x in schema.types[o].interfaces):
                 ext["fields"].setdefault(o, []).append(copy.deepcopy(f))
     if names["union"] and zed and rng.random() < 0.5:
-        ext["members"][rng.choice(names["union"])] = [zed]
+        ext["members"][pick(names["union"])] = [zed]
     if names["enum"] and rng.random() < 0.4:
-        ext["values"][rng.choice(names["enum"])] = ["EXT_V%d" % n]
+        ext["values"][pick(names["enum"])] = ["%sEXT_V%d" % (u, n)]
     if names["input"] and rng.random() < 0.4:
         t = ty(rng.choice(W.SCALARS + names["enum"]))
         if t["k"] == "nonNull":
             t = t["t"]      # a new REQUIRED input field would invalidate existing default values of that input type
-        ext["input_fields"][rng.choice(names["input"])] = [{"name": "ext_i%d" % n, "ty": t}]
+        ext["input_fields"][pick(names["input"])] = [{"name": "%sext_i%d" % (u, n), "ty": t}]
     if rng.random() < 0.25:
-        ext["new_dirs"].append({"name": "ext_dir%d" % n, "args": [{"name": "d_arg", "ty": ty("Int")}], "locs": ["FIELD"]})
+        ext["new_dirs"].append({"name": "%sext_dir%d" % (u, n), "args": [{"name": u + "d_arg", "ty": ty("Int")}], "locs": ["FIELD"]})
     if not any(ext[k] for k in ext):
         ext["new_types"].append({"kind": "object", "name": "Zed%d" % n, "fields": [{"name": "z_val", "ty": ty("Int"), "args": []}]})
     return ext
@@ -269,45 +343,48 @@ def ext_sdl(ext, schema):
     return "\n".join(parts)
 
 
-def gen_steps(rng, schema, n_steps):
-    steps = []
-    for i in range(n_steps):
-        r = rng.random()
-        if r < 0.15:
-            steps.append({"op": "clone", "src": 0})
-        elif r < 0.55:
-            vs = []
-            k = rng.random()
-            if k < 0.55:
-                vs.append(gen_visibility(rng, schema))
-            elif k < 0.75:
-                vs.append({"k": "camel"})
-            elif k < 0.88:
-                vs.append(gen_sdir(rng, schema))
-            else:
-                vs.append(gen_visibility(rng, schema))
-                vs.append({"k": "camel"})
-            steps.append({"op": "transform", "src": 0, "visitors": vs})
-        elif r < 0.8:
-            vs = []
-            for _ in range(rng.randint(1, 2)):
-                k = rng.random()
-                vs.append(gen_visibility(rng, schema) if k < 0.6 else ({"k": "camel"} if k < 0.8 else gen_sdir(rng, schema)))
-            if sum(1 for v in vs if v["k"] == "camel") > 1:
-                vs = vs[:1]
-            vs.sort(key=lambda v: v["k"] == "camel")     # predicates name elements by their source names: rename last
-            steps.append({"op": "inplace", "src": 0, "visitors": vs})
-        elif r < 0.92:
-            steps.append({"op": "extend", "src": 0, "ext": gen_ext(rng, schema, i)})
+def gen_step(rng, schema, i, src=0):
+    """One step starting from `schema` (= the schema number `src` of the sequence: the source or an earlier RESULT)."""
+    r = rng.random()
+    if src != 0 and r >= 0.92:
+        r = 0.1            # (replace steps only on the source)
+    if r < 0.15:
+        return {"op": "clone", "src": src}
+    if r < 0.55:
+        vs = []
+        k = rng.random()
+        if k < 0.55:
+            vs.append(gen_visibility(rng, schema))
+        elif k < 0.75:
+            vs.append({"k": "camel"})
+        elif k < 0.88:
+            vs.append(gen_sdir(rng, schema))
         else:
-            names = live_names(schema)
-            roots = {r.name for r in (schema.query_type, schema.mutation_type, schema.subscription_type) if r is not None}
-            cand = [n for k in ("object", "interface", "union", "input") for n in names[k] if n not in roots]
-            rng.shuffle(cand)
-            entries = [[n, rng.choice(["copy", "same", "same", "delete"] if j else ["copy"])] for j, n in enumerate(cand[:3])]
-            rng.shuffle(entries)
-            steps.append({"op": "replace", "src": 0, "entries": entries})
-    return steps
+            vs.append(gen_visibility(rng, schema))
+            vs.append({"k": "camel"})
+        return {"op": "transform", "src": src, "visitors": vs}
+    if r < 0.8:
+        vs = []
+        for _ in range(rng.randint(1, 2)):
+            k = rng.random()
+            vs.append(gen_visibility(rng, schema) if k < 0.6 else ({"k": "camel"} if k < 0.8 else gen_sdir(rng, schema)))
+        if sum(1 for v in vs if v["k"] == "camel") > 1:
+            vs = vs[:1]
+        vs.sort(key=lambda v: v["k"] == "camel")     # predicates name elements by their source names: rename last
+        return {"op": "inplace", "src": src, "visitors": vs}
+    if r < 0.92:
+        return {"op": "extend", "src": src, "ext": gen_ext(rng, schema, i)}
+    names = live_names(schema)
+    roots = {r.name for r in (schema.query_type, schema.mutation_type, schema.subscription_type) if r is not None}
+    cand = [n for k in ("object", "interface", "union", "input") for n in names[k] if n not in roots]
+    rng.shuffle(cand)
+    entries = [[n, rng.choice(["copy", "same", "same", "delete"] if j else ["copy"])] for j, n in enumerate(cand[:3])]
+    rng.shuffle(entries)
+    return {"op": "replace", "src": src, "entries": entries}
+
+
+def gen_steps(rng, schema, n_steps):
+    return [gen_step(rng, schema, i) for i in range(n_steps)]
 
 
 # ---------------------------------------------------------------------------
@@ -393,7 +470,7 @@ def make_visitor(v, funcs):
 
 def apply_step(step, schemas, funcs):
     """Run one step on the live schemas. Returns (result schema | None, 'ok' | 'rejected:<Class>' | 'internal:<Class>')."""
-    from py_gql.exc import ExtensionError, SchemaError, SDLError
+    from py_gql.exc import ExtensionError, SchemaError, SchemaValidationError, SDLError
     from py_gql.schema.transforms import transform_schema
     from py_gql.sdl import extend_schema
     src = schemas[step["src"]]
@@ -434,11 +511,26 @@ def apply_step(step, schemas, funcs):
             step["entries"] = [[n, m] for n, m in step["entries"] if n in d]
             c._replace_types_and_directives(d)
             return c, "ok"
-    except (SchemaError, ExtensionError, SDLError) as e:
+    except (SchemaValidationError, ExtensionError, SDLError) as e:
         return None, "rejected:" + type(e).__name__
     except Exception as e:  # noqa
-        return None, "internal:" + type(e).__name__
+        # (a plain SchemaError is NOT a verdict on the requested schema: it is what the registries / the replacement
+        #  machinery raise when a derivation cannot be carried out)
+        step["raised"] = ("%s: %s" % (type(e).__name__, e))[:300]
+        return None, "internal:" + type(e).__name__ + _slug(e)
     raise ValueError(step["op"])
+
+
+_SLUGS = [(r"different kind of type", "different-kind-of-type"), (r"already has a (resolver|subscription)", "already-has-a-resolver"),
+          (r"unknown field", "registry-names-unknown-field"), (r"Cannot assign (resolver|subscription) to", "registry-names-non-object-type")]
+
+
+def _slug(e):
+    msg = str(e)
+    for pat, slug in _SLUGS:
+        if re.search(pat, msg):
+            return ":" + slug
+    return ""
 
 
 # ---------------------------------------------------------------------------
@@ -692,26 +784,63 @@ def first_category(found):
     return out
 
 
+def _step_label(step):
+    return step["op"] + ("/" + "+".join(v["k"] for v in step["visitors"]) if step["op"] in ("transform", "inplace") else "")
+
+
+def _to_string(schema):
+    try:
+        return schema.to_string()
+    except Exception as e:  # noqa
+        return "exc:" + type(e).__name__
+
+
+def track_registered(step, tracked_src, res, fail):
+    """The resolvers REGISTERED on the source (through `register_resolver` / `register_subscription`) followed through the
+    chain of derivations: {(type, current field name): (id, attribute)}. A field that is still there must still CARRY the
+    resolver registered for it (under its new name after a camel-case transform) unless this very step wrapped it."""
+    from py_gql.schema import ObjectType
+    hid_t, hid_f, hid_i, hid_d, ren, wrapped, dropped = expected_effect(step)
+    out = {}
+    for (t, f), (vid, attr) in tracked_src.items():
+        ty = res.types.get(t)
+        if not isinstance(ty, ObjectType) or (t, f) in hid_f or (t, f) in dropped:
+            continue
+        if "%s.%s" % (t, f) in wrapped and attr == "resolver":
+            continue       # (a wrapper now: no longer followed)
+        f2 = ren(f)
+        names = [x.name for x in ty.fields]
+        if f2 not in names or names.count(f2) != 1:
+            continue
+        got = W._fid(getattr(ty.field_map[f2], attr))
+        if got != vid:
+            fail("preserved:%s:registered-%s-lost" % (step["op"], attr.replace("_", "-")),
+                 "%s.%s carried the %s registered through the schema's registry (#%s); after the step %s.%s carries #%s"
+                 % (t, f, attr, vid, t, f2, got))
+            continue
+        out[(t, f2)] = (vid, attr)
+    return out
+
+
 def one_sequence(ctx, seed_note, size, n_steps, steps=None, build_seed=None):
-    """Build one source, apply the steps, check everything after every step. Returns a replayable record."""
+    """Build one source, apply the steps (each starts from the source or from the RESULT of an earlier step), check
+    everything after every step. Returns a replayable record."""
     import random
     seed = build_seed if build_seed is not None else ctx.rng.getrandbits(48)
     rng = random.Random(seed)
     funcs = W.Funcs()
     desc, sdl, source = W.build_source(rng, size, funcs)
-    if steps is None:
-        steps = gen_steps(rng, source, n_steps)
+    lazy = steps is None
+    n_total = n_steps if lazy else len(steps)
     dumper = W.Dumper()
     base_raw = dumper.dump([source])
     base_world = W.canon(base_raw)
-    query = W.coverage_query(source)
     base_q = W.use_schema(source)                   # the schema is in use: every derived cache is populated
-    try:
-        base_text = source.to_string()
-    except Exception as e:  # noqa
-        base_text = "exc:" + type(e).__name__
+    base_text = _to_string(source)
     ctx.stat("source:types=%d" % min(len(base_world["schemas"][0]["types"]), 30))
     ctx.stat("source:rare-names=%s" % desc.get("rare_names"))
+    if desc.get("subclassed"):
+        ctx.stat("source:type-objects-of-a-subclass")
     if desc.get("rare_names"):
         for n, _ in base_world["schemas"][0]["types"]:
             if n.startswith("_"):
@@ -722,23 +851,51 @@ def one_sequence(ctx, seed_note, size, n_steps, steps=None, build_seed=None):
     post_rng = random.Random(seed ^ 0x5EED)
     record = {"seed": seed, "size": size, "steps": [], "sdl": sdl}
     schemas = [source]
+    labels = ["source"]
+    chainable = []          # results a later step may start from
+    tracked = [dict([((t, f), (v, "resolver")) for t, d in base_registry["resolvers"].items() for f, v in d.items()])]
+    tracked_sub = [dict([((t, f), (v, "subscription_resolver")) for t, d in base_registry["subscriptions"].items() for f, v in d.items()])]
     failures = []
     model_steps = []
-    for step in steps:
+    for i in range(n_total):
         if ctx.out_of_time():
             break
-        step = copy.deepcopy(step)
+        if lazy:
+            src_i = rng.choice(chainable) if chainable and rng.random() < 0.4 else 0
+            step = gen_step(rng, schemas[src_i], i, src_i)
+        else:
+            step = copy.deepcopy(steps[i])
         if step["src"] >= len(schemas):
             step["src"] = 0
+        si = step["src"]
+        cur = schemas[si]
         ctx.count()
-        if step["src"] != 0:
-            W.use_schema(schemas[step["src"]])      # (the source itself is used once before the first step and after every step)
+        if si == 0:
+            cur_raw, cur_world, cur_registry, cur_q, cur_text = base_raw, base_world, base_registry, base_q, base_text
+        else:
+            # (the source itself is used once before the first step and after every step)
+            cur_q = W.use_schema(cur)
+            cur_raw = dumper.dump([cur])
+            cur_world = W.canon(cur_raw)
+            cur_registry = W.registry_digest(cur)
+            cur_text = _to_string(cur)
+            ctx.stat("chain:%s->%s" % (labels[si], _step_label(step)))
+            if any(cur_registry["resolvers"].get(t, {}).get(f) is not None and
+                   not (hasattr(cur.types.get(t), "field_map") and f in cur.types[t].field_map)
+                   for t, d in cur_registry["resolvers"].items() for f in d):
+                ctx.stat("chain:registry-of-the-derived-source-names-a-field-that-is-gone")
         res, status = apply_step(step, schemas, funcs)
         step["status"] = status
         record["steps"].append(step)
         model_steps.append(step)
-        ctx.stat("step:%s:%s" % (step["op"] + ("/" + "+".join(v["k"] for v in step["visitors"]) if step["op"] in ("transform", "inplace") else ""),
-                                 status.split(":")[0]))
+        ctx.stat("step:%s:%s" % (_step_label(step), status.split(":")[0]))
+        if step["op"] == "extend":
+            e = step["ext"]
+            targets = list(e["fields"]) + list(e["input_fields"]) + list(e["members"]) + list(e["values"])
+            if any(t in W.RARE_TYPE_NAMES for t in targets):
+                ctx.stat("extend:block-on-a-type-with-a-rare-name:%s" % status.split(":")[0])
+            if any(t["name"].startswith("_") for t in e["new_types"]):
+                ctx.stat("extend:new-names-with-a-leading-underscore:%s" % status.split(":")[0])
         found = []
 
         def fail(sig, what, found=found):
@@ -750,68 +907,85 @@ def one_sequence(ctx, seed_note, size, n_steps, steps=None, build_seed=None):
             fail("step-raises:%s:rejected-without-removal:%s" % (step["op"], "+".join(v["k"] for v in step.get("visitors", []))),
                  "%s that removes nothing was rejected with %s (the source validates)" % (step["op"], status))
         if status.startswith("internal:"):
-            sig = "step-raises:%s:%s" % (step["op"], status.split(":")[1])
-            what = "%s raised %s" % (step["op"], status)
+            sig = "step-raises:%s:%s" % (step["op"], status.split(":", 1)[1])
+            what = "%s%s raised %s" % (step["op"], "" if si == 0 else " of the result of step %d (%s)" % (si, labels[si]),
+                                       step.get("raised", status))
             if any(v["k"] == "camel" for v in step.get("visitors", [])) and status == "internal:IndexError":
-                bad_names = [n for n, _ in camel_table(source) if n and not n.strip("_")]
+                bad_names = [n for n, _ in camel_table(cur) if n and not n.strip("_")]
                 if bad_names:
                     sig = "step-raises:camel-case:underscore-only-name:IndexError"
                     what = "CamelCaseSchemaTransform raised IndexError: the schema has a field / argument named %r" % bad_names[0]
             fail(sig, what)
-        # --- frame condition on the source (identities included)
-        after_raw = dumper.dump([source])
-        if after_raw != base_raw:
-            d = W.first_diff(base_raw, after_raw)
+        # --- frame condition on the schema the step started from, and on the original source (identities included)
+        after_raw = dumper.dump([cur])
+        if after_raw != cur_raw:
+            d = W.first_diff(cur_raw, after_raw)
             kind = "object-graph"
             m = re.search(r"\.objs\.(\d+)\.(\w+)", d or "")
             if m:
-                o = base_raw["objs"].get(int(m.group(1)), {})
+                o = cur_raw["objs"].get(int(m.group(1)), {})
                 kind = "%s.%s" % (o.get("o", "?"), m.group(2))
             fail("frame:source-modified:%s:%s" % (step["op"], kind),
                  "the SOURCE schema's object graph changed during %s: %s" % (step["op"], d))
-        reg_now = W.registry_digest(source)
-        if reg_now != base_registry:
-            d = W.first_diff(base_registry, reg_now) or ""
+        if si != 0 and dumper.dump([source]) != base_raw:
+            fail("frame:source-modified:%s:ancestor" % step["op"],
+                 "the ORIGINAL schema's object graph changed during a %s of a schema derived from it: %s"
+                 % (step["op"], W.first_diff(base_raw, dumper.dump([source]))))
+        reg_now = W.registry_digest(cur)
+        if reg_now != cur_registry:
+            d = W.first_diff(cur_registry, reg_now) or ""
             fail("frame:source-registry-modified:%s:%s" % (step["op"], d.split(".")[1] if "." in d else "registry"),
                  "the SOURCE schema's resolver registries changed during %s: %s" % (step["op"], d))
+        if si != 0 and W.registry_digest(source) != base_registry:
+            fail("frame:source-registry-modified:%s:ancestor" % step["op"],
+                 "the ORIGINAL schema's resolver registries changed during a %s of a schema derived from it" % step["op"])
         undo_post = None
         if res is not None and step["op"] != "replace":
             # the application goes on using the DERIVED schema: registrations on it must not reach the source
             try:
-                done, undo_post = W.post_derivation_registrations(res, source, funcs, post_rng)
+                done, undo_post = W.post_derivation_registrations(res, cur, funcs, post_rng)
                 for x in done:
                     ctx.stat("post-registration:%s" % x.split("(")[1].rstrip(")"))
             except Exception as e:  # noqa
                 fail("step-raises:post-registration:%s:%s" % (step["op"], type(e).__name__),
                      "register_resolver / register_subscription / register_default_resolver on the %s result raised %r" % (step["op"], e))
-            reg_now = W.registry_digest(source)
-            if reg_now != base_registry:
-                d = W.first_diff(base_registry, reg_now) or ""
+            reg_now = W.registry_digest(cur)
+            if reg_now != cur_registry or W.registry_digest(source) != base_registry:
+                d = W.first_diff(cur_registry, reg_now) or W.first_diff(base_registry, W.registry_digest(source)) or ""
                 fail("frame:source-registry-modified:registration-on-%s-result:%s" % (step["op"], d.split(".")[1] if "." in d else "registry"),
                      "registering resolvers on the %s RESULT changed the SOURCE schema's registries: %s" % (step["op"], d))
-            after_raw2 = dumper.dump([source])
-            if after_raw2 != base_raw and after_raw == base_raw:
+            after_raw2 = dumper.dump([cur])
+            if after_raw2 != cur_raw and after_raw == cur_raw:
                 fail("frame:source-modified:registration-on-%s-result" % step["op"],
-                     "registering resolvers on the %s RESULT changed the SOURCE schema's objects: %s" % (step["op"], W.first_diff(base_raw, after_raw2)))
-        bad = W.closed_violations(source)
+                     "registering resolvers on the %s RESULT changed the SOURCE schema's objects: %s" % (step["op"], W.first_diff(cur_raw, after_raw2)))
+        bad = W.closed_violations(cur)
         if bad:
             fail("source-unusable:not-closed:%s" % step["op"], "source no longer closed: %s" % bad[0])
-        qa = W.run_query(source, query)
-        if qa != base_q:
+        qa = W.use_schema(cur) if si != 0 else W.run_query(cur, W.coverage_query(cur))
+        if qa != cur_q:
             fail("source-unusable:query-differs:%s" % step["op"], "coverage query on the source answers differently after the step")
-        try:
-            text = source.to_string()
-        except Exception as e:  # noqa
-            text = "exc:" + type(e).__name__
-        if text != base_text:
+        if _to_string(cur) != cur_text:
             fail("source-unusable:print-differs:%s" % step["op"], "source prints differently after the step")
         if undo_post is not None:
             undo_post()         # the derived schema is put back as derived (the model knows nothing about these registrations)
         if res is not None:
-            if step["op"] == "clone" and W.registry_digest(res) != base_registry:
-                fail("preserved:clone:schema:resolver-registry", "a clone's resolver registries differ from its source's: %s"
-                     % W.first_diff(base_registry, W.registry_digest(res)))
+            if step["op"] in ("clone", "extend"):
+                # a derived schema shows the registry entries of its source that still name one of its fields
+                exp = W.restrict_registry(cur_registry, res)
+                got = W.registry_digest(res)
+                if got != exp:
+                    d = W.first_diff(exp, got) or ""
+                    if step["op"] == "clone":
+                        fail("preserved:clone:schema:resolver-registry", "a clone's resolver registries differ from its source's: %s" % d)
+                    else:
+                        fail("registry:extend:%s" % ("dropped" if (exp["resolvers"] or exp["subscriptions"]) and not (got["resolvers"] or got["subscriptions"])
+                                                      else "differs"),
+                             "the resolver registries of the schema extend_schema returned differ from its source's "
+                             "(get_resolver / get_subscription answer differently): %s" % d)
             schemas.append(res)
+            labels.append(_step_label(step))
+            if step["op"] != "replace":
+                chainable.append(len(schemas) - 1)
             def closed_check(when):
                 bad = W.closed_violations(res)
                 if bad:
@@ -820,40 +994,61 @@ def one_sequence(ctx, seed_note, size, n_steps, steps=None, build_seed=None):
                     where = re.split(r"[\[(]", bad[0].split(" ")[0])[0]
                     fail("closed:%s:%s:%s" % (step["op"], kind, where), "result not closed (%s): %s" % (when, bad[0]))
             closed_check("right after the step")
-            world = W.canon(dumper.dump([source, res]))
-            check_result(step, base_world, world, 1, fail)
+            world = W.canon(dumper.dump([cur, res]))
+            check_result(step, cur_world, world, 1, fail)
+            tracked.append(track_registered(step, tracked[si], res, fail))
+            tracked_sub.append(track_registered(step, tracked_sub[si], res, fail))
             if step["op"] != "replace":
                 intro = W.introspect(res)
                 check_hidden_live(step, res, fail, intro)
                 check_possible_live(step, res, fail, intro)
+            del funcs.calls[:]
             rq = W.use_schema(res) if step["op"] != "replace" else {}
+            # execution on the result uses the registered resolver — under the field's new name
+            for vid, tn, fname in funcs.calls:
+                want = tracked[-1].get((tn, fname))
+                if want is not None and want[0] != vid:
+                    fail("result-differs:execution:registered-resolver-not-used:%s" % step["op"],
+                         "executing %s.%s on the result called resolver #%s, the one registered for it is #%s" % (tn, fname, vid, want[0]))
+            if si != 0 and tracked[-1]:
+                ctx.stat("chain:registered-resolver-followed-through-two-derivations")
             closed_check("after using the result")
             if not isinstance(rq, dict):
                 fail("result-unusable:query:%s" % step["op"], "coverage query on the result raised %s" % rq)
-            elif [m for m in rq.get("errors", []) if not m.endswith("is not nullable")] and isinstance(base_q, dict) and not base_q.get("errors"):
+            elif [m for m in rq.get("errors", []) if not m.endswith("is not nullable")] and isinstance(cur_q, dict) and not cur_q.get("errors"):
                 # ("is not nullable" = the harness' resolver has no possible object left for an abstract type: not a defect)
                 fail("result-unusable:query-errors:%s" % step["op"], "coverage query (fragments on every possible type) on the result reports %s"
                      % [m for m in rq["errors"] if not m.endswith("is not nullable")][:2])
-            elif step["op"] in ("clone",) and rq != base_q:
+            elif step["op"] in ("clone",) and rq != cur_q:
                 fail("result-differs:query:clone", "a clone answers the coverage query differently from its source")
             key = (step["op"], json.dumps(step.get("visitors", step.get("ext", step.get("entries"))), sort_keys=True)[:400],
-                   len(base_world["objs"]))
+                   len(cur_world["objs"]), si)
             if world["schemas"][1] != world["schemas"][0] or step["op"] == "clone":
                 ctx.nontrivial(key)
         if found:
-            failures = first_category(found)
-            break
-    if not failures:
-        # (at the END of the sequence: the registrations on this extra clone must not interfere with the steps above)
-        reg_case = None
-        try:
-            cfg_now = getattr(ctx, "_c14_cfg", None)
-            if cfg_now is not None:
-                reg_case = W.registry_case(source, funcs, random.Random(seed ^ 0xFEED), bool(cfg_now.get("cloneRegsDeep", True)))
-        except Exception as e:  # noqa
-            ctx.notes.append("registry case failed: %s: %s" % (type(e).__name__, e))
-        if reg_case is not None:
-            ctx.__dict__.setdefault("_c14_reg_cases", []).append(reg_case + (seed, size))
+            new = [(sig, what) for sig, what in first_category(found) if not any(sig == s0 for s0, _ in failures)]
+            for sig, what in new:
+                step.setdefault("failed", []).append(sig)
+            failures += new
+            # a step that raised (nothing derived, the frame checks passed) or only lost registry entries: the sequence goes on
+            if not all(sig.startswith("registry:") or (sig.startswith("step-raises:") and res is None) for sig, _ in found):
+                break
+    if not any(not (sig.startswith("registry:") or sig.startswith("step-raises:")) for sig, _ in failures):
+        # (at the END of the sequence: the registrations on these extra clones must not interfere with the steps above)
+        cfg_now = getattr(ctx, "_c14_cfg", None)
+        cases = [("clone", source, "source")]
+        if chainable:
+            cases.append(("clone", schemas[chainable[-1]], labels[chainable[-1]]))
+        cases.append(("extend", source, "source"))
+        for kind, sch, label in cases:
+            if cfg_now is None:
+                break
+            try:
+                req, impl = W.registry_case(sch, funcs, random.Random(seed ^ 0xFEED), cfg_now, kind)
+            except Exception as e:  # noqa
+                ctx.notes.append("registry case failed: %s: %s" % (type(e).__name__, e))
+                continue
+            ctx.__dict__.setdefault("_c14_reg_cases", []).append((req, impl, seed, size, label))
     return record, failures, schemas, dumper, model_steps, base_world
 
 
@@ -907,7 +1102,9 @@ def run(ctx):
             ctx.sample({"sdl_head": record["sdl"][:300], "steps": [{k: v for k, v in s.items() if k in ("op", "visitors", "status", "entries")}
                                                                    for s in record["steps"]][:3]})
         for sig, what in failures:
-            rec = shrink(ctx, record, sig) if sig not in seen_sigs else record
+            upto = next((k for k, st in enumerate(record["steps"]) if sig in st.get("failed", [])), len(record["steps"]) - 1)
+            cut = dict(record, steps=record["steps"][:upto + 1])
+            rec = shrink(ctx, cut, sig) if sig not in seen_sigs else cut
             seen_sigs.add(sig)
             ctx.fail(sig, what, rec)
         if cfg is not None and ctx.model_ok and msteps:
@@ -942,15 +1139,23 @@ def run(ctx):
     reg_cases = ctx._c14_reg_cases
     if reg_cases and ctx.model_ok:
         answers = ctx.driver.ask([c[0] for c in reg_cases])
-        for (req, impl, seed, size), ans in zip(reg_cases, answers):
+        for (req, impl, seed, size, label), ans in zip(reg_cases, answers):
             ctx.count()
-            if req["ops"]:
-                ctx.nontrivial(("regs", json.dumps(req["ops"], sort_keys=True)[:300], seed))
-            if ans.get("source") != impl["source"] or ans.get("clone") != impl["clone"]:
-                which = "source" if ans.get("source") != impl["source"] else "clone"
-                ctx.fail("corr:registries:%s" % which, "registries of the %s after clone() + registrations differ (impl vs model): %s"
-                         % (which, W.first_diff(impl[which], ans.get(which))),
-                         {"seed": seed, "size": size, "request": req, "impl": impl, "model": ans}, kind="correspondence")
+            if req["ops"] or label != "source":
+                ctx.nontrivial(("regs", req["kind"], label, json.dumps(req["ops"], sort_keys=True)[:300], seed))
+            ctx.stat("regs:%s:%s:%s" % (req["kind"], "source" if label == "source" else "derived", "raised" if impl["rejected"] else "ok"))
+            detail = {"seed": seed, "size": size, "derived_by": label, "request": {k: v for k, v in req.items() if k != "cfg"},
+                      "impl": impl, "model": ans}
+            if bool(ans.get("rejected")) != impl["rejected"]:
+                ctx.fail("corr:registries:raises", "%s(): the code %s, the model %s" % (
+                    req["kind"], "raised " + impl.get("why", "") if impl["rejected"] else "succeeded",
+                    "rejects" if ans.get("rejected") else "succeeds"), detail, kind="correspondence")
+                continue
+            for which in ("source",) if impl["rejected"] else ("source", "clone"):
+                if ans.get(which) != impl[which]:
+                    ctx.fail("corr:registries:%s" % which, "registries of the %s after %s() + registrations differ (impl vs model): %s"
+                             % (which, req["kind"], W.first_diff(impl[which], ans.get(which))), detail, kind="correspondence")
+                    break
     ctx.extra["registry_cases"] = len(reg_cases)
 
 
@@ -959,12 +1164,22 @@ def shrink(ctx, record, sig):
     steps = record["steps"]
     if not steps:
         return record
-    last = copy.deepcopy(steps[-1])
-    last["src"] = 0
-    for k in ("status", "sdl"):
-        last.pop(k, None)
+    # the failing step and, if it started from an earlier RESULT, the chain of steps that produced that result
+    ok_steps = [st for st in steps[:-1] if st.get("status") == "ok"]
+    chain = [copy.deepcopy(steps[-1])]
+    while chain[0].get("src", 0) != 0:
+        k = chain[0]["src"] - 1
+        if k >= len(ok_steps) or len(chain) > 8:
+            return record
+        chain.insert(0, copy.deepcopy(ok_steps[k]))
+    if len(chain) == len(steps):
+        return record
+    for n, st in enumerate(chain):
+        st["src"] = n
+        for k in ("status", "sdl", "failed", "raised"):
+            st.pop(k, None)
     try:
-        rec2, failures, *_ = one_sequence(ctx, "shrink", record["size"], 1, steps=[last], build_seed=record["seed"])
+        rec2, failures, *_ = one_sequence(ctx, "shrink", record["size"], len(chain), steps=chain, build_seed=record["seed"])
         if any(s == sig for s, _ in failures):
             return rec2
     except Exception:  # noqa
@@ -980,7 +1195,8 @@ def replay(ctx, data):
         return True
     steps = copy.deepcopy(inp["steps"])
     for s in steps:
-        s.pop("status", None)
+        for k in ("status", "failed", "raised"):
+            s.pop(k, None)
     record, failures, *_ = one_sequence(ctx, "replay", inp["size"], len(steps), steps=steps, build_seed=inp["seed"])
     want = data.get("signature")
     if want and want.startswith("corr:"):
